@@ -6,6 +6,7 @@ import (
 	"go/parser"
 	"go/token"
 	"go/types"
+	"path/filepath"
 	"sort"
 	"strings"
 
@@ -103,6 +104,29 @@ func (p *Program) Mutate(repl map[string][]byte) (*Program, error) {
 				if i < len(files) {
 					files[i] = f
 				}
+				changed = true
+			}
+		}
+		// a file the change adds to this package's directory (functions moved into a new file)
+		if len(pk.CompiledGoFiles) > 0 {
+			dir := filepath.Dir(pk.CompiledGoFiles[0])
+			known := map[string]bool{}
+			for _, name := range pk.CompiledGoFiles {
+				known[name] = true
+			}
+			var added []string
+			for name := range repl {
+				if filepath.Dir(name) == dir && !known[name] && strings.HasSuffix(name, ".go") && !strings.HasSuffix(name, "_test.go") {
+					added = append(added, name)
+				}
+			}
+			sort.Strings(added)
+			for _, name := range added {
+				f, err := parser.ParseFile(p.Fset, name, repl[name], parser.ParseComments|parser.SkipObjectResolution)
+				if err != nil {
+					return nil, fmt.Errorf("parse %s: %v", name, err)
+				}
+				files = append(files, f)
 				changed = true
 			}
 		}
